@@ -16,7 +16,10 @@ def runC14 (op : String) (j : Json) : R Json := do
                       ("spec", jInts (maps.flatten.map Int.ofNat))])
   | "rawind_direct" =>
     let cm ← getNats j "cm"; let pr ← getNats j "probes"
-    pure (Json.mkObj [("model", jInts (exportRawInd cm pr))])
+    let m := exportRawInd cm pr
+    -- `ordered`: the class of probe tables for which a per-probe raw index is claimed (Spec `probesOrdered`)
+    pure (Json.mkObj [("model", jInts m), ("ordered", Json.bool (probesOrdered cm pr)),
+                      ("nonneg", Json.bool (m.all fun x => decide (0 ≤ x)))])
   | "nearest" =>
     let pos ← fld j "positions" >>= asList asPos
     let pr ← getNats j "probes"; let peaks ← getNats j "peaks"; let ncw ← getNat j "ncw"
@@ -34,11 +37,17 @@ def runC14 (op : String) (j : Json) : R Json := do
                             (peaks.zip rows).all fun p => p.2.head? == some p.1)
                         | none => Json.null)])
   | "depths" =>
-    let ys ← getRats j "ys"; let peaks ← getNats j "peaks"; let nan ← getNats j "nan_idx"
-    let sc ← getNats j "spike_clusters"
-    let cd := clusterDepths ys peaks nan
-    pure (Json.mkObj [("cluster_depths", jList (jOpt jRat) cd),
-                      ("spike_depths", jList (jOpt jRat) (spikeDepthsFromClusters cd sc))])
+    -- make_depths: WHICH ids are blanked is computed here from the spike assignment (`spikelessIds`), never handed in;
+    -- `peaks` = the exported clusters.channels table; `feat0`/`cols` = the stored feature arrays when the dataset has
+    -- any (one row of `feat0` per STORED spike: fewer rows than spikes -> get_depths() is None -> cluster depths)
+    let ys ← getRats j "ys"; let peaks ← getNats j "peaks"
+    let sc ← getNats j "spike_clusters"; let st ← getNats j "spike_templates"
+    let fe : Option Feats ← if hasFld j "feat0" then (do
+        pure (some ⟨← getRatMat j "feat0", ← getNatss j "cols"⟩)) else pure none
+    pure (Json.mkObj [("cluster_depths", jList (jOpt jRat) (exportClusterDepths ys peaks sc)),
+                      ("spike_depths", jList (jOpt jRat) (exportSpikeDepths fe ys peaks st sc)),
+                      ("blanked", jNats (spikelessIds peaks.length sc)),
+                      ("from_features", Json.bool (getDepths fe ys st).isSome)])
   | "amp_files" =>
     -- value side of make_template_and_spikes_objects: both calls of get_amplitudes_true with the unit factor and the
     -- gather of the listed channels (the tables `inds_*` are the rows the real export wrote, validated by `nearest`)
@@ -55,9 +64,12 @@ def runC14 (op : String) (j : Json) : R Json := do
                       ("clusters_amps", jList (jOpt jRat) e.clustersAmps),
                       ("clusters_waveforms", jList (jOpt jRatMat) e.clustersWaveforms)])
   | "ptt" =>
-    let wfs ← getRat3 j "wfs"; let rate ← getRat j "rate"; let nan ← getNats j "nan_idx"
+    let wfs ← getRat3 j "wfs"; let rate ← getRat j "rate"
+    let sc ← getNats j "spike_clusters"; let st ← getNats j "spike_templates"
+    -- model.nan_idx is COMPUTED (C08 model on the stored assignments), never handed in
+    let nan := modelNanIdx st sc
     pure (Json.mkObj [("peak", jNats (peakChannels wfs)),
-                      ("ptt", jList (jOpt jRat) (exportPeakToTrough wfs rate nan)),
+                      ("ptt", jList (jOpt jRat) (exportDurations wfs rate st sc)),
                       -- harness aids for floating-point cluster waveforms (see Driver/C09 `nearPeaks`): admissible peak
                       -- channels, and the NaN-masked duration measured on every channel
                       ("near_peaks", jList jNats (wfs.map nearPeaks)),
